@@ -102,6 +102,21 @@ pub const FUNC_COMBOS: &[&str] = &[
     "f/u64/box-u64/s2/mwhc-noshards",
     "f/usize/bfv-u8/s2/shards",
     "f/usize/bfv-u16/s1/noshards",
+    // the other key types with a ToSig implementation (both signature widths)
+    "f/u8/bfv-usize/s1/noshards",
+    "f/u16/box-u16/s2/shards",
+    "f/u32/bfv-u32/s1/noshards",
+    "f/u128/box-u64/s2/fullsigs",
+    "f/i8/bfv-u8/s2/noshards",
+    "f/i16/box-usize/s1/noshards",
+    "f/i32/bfv-u16/s2/shards",
+    "f/i64/box-u32/s1/noshards",
+    "f/i128/bfv-usize/s1/noshards",
+    "f/isize/bfv-u64/s2/shards",
+    "f/string/box-usize/s1/noshards",
+    "f/bytes/bfv-u32/s2/noshards",
+    "f/words/bfv-usize/s1/noshards",
+    "f/bytes/box-u16/s1/noshards",
 ];
 pub const FILTER_COMBOS: &[&str] = &[
     "F/usize/box-u8/s2/shards",
@@ -113,6 +128,10 @@ pub const FILTER_COMBOS: &[&str] = &[
     "F/str/bfv-u32/s2/shards",
     "F/usize/bfv-u16/s2/mwhc-shards",
     "F/usize/bfv-u64/s2/fullsigs",
+    "F/u32/box-u8/s1/noshards",
+    "F/string/bfv-u16/s2/shards",
+    "F/i64/bfv-u32/s1/noshards",
+    "F/u128/box-u16/s2/noshards",
 ];
 
 pub fn combo_word_bits(combo: &str) -> u32 {
@@ -138,6 +157,75 @@ pub fn combo_sharded(combo: &str) -> bool {
 
 // ---------------------------------------------------------------------------------------------
 // key and value generation (pure functions of the case)
+
+/// Largest number of distinct keys a key type can provide.
+pub fn combo_max_n(combo: &str) -> usize {
+    match combo_key(combo) {
+        "u8" | "i8" => 256,
+        "u16" | "i16" => 65_536,
+        "bytes" | "words" => POOL_KEYS,
+        _ => usize::MAX,
+    }
+}
+
+/// i -> a key of `bits` bits: an affine bijection of Z/2^bits, so distinct i < 2^bits give distinct keys.
+pub fn narrow_key(case: &BuilderCase, i: u64, bits: u32) -> u128 {
+    let m = odd_mult(case.key_seed) as u128 | ((odd_mult(case.key_seed ^ 0x77) as u128) << 64) | 1;
+    let c = (case.key_seed.rotate_left(29) as u128) | ((case.key_seed.rotate_left(3) as u128) << 64);
+    let x = match case.key_kind.as_str() {
+        "scatter" => (i as u128).wrapping_mul(m).wrapping_add(c),
+        _ => i as u128,
+    };
+    if bits >= 128 {
+        x
+    } else {
+        x & ((1u128 << bits) - 1)
+    }
+}
+
+/// Slice keys (`&'static [u8]`, `&'static [u64]`) come from two immutable pools: pair j of keys shares a
+/// chunk that starts with j, key 2j being a strict prefix of key 2j+1 (so lengths, not only contents, matter).
+pub const POOL_KEYS: usize = 8192;
+fn pool_bytes() -> &'static [u8] {
+    static P: std::sync::OnceLock<Vec<u8>> = std::sync::OnceLock::new();
+    P.get_or_init(|| {
+        let mut v = Vec::with_capacity(POOL_KEYS / 2 * 16);
+        for j in 0..(POOL_KEYS / 2) as u64 {
+            v.extend_from_slice(&(j as u32).to_le_bytes());
+            let mut x = j ^ 0xB17E5;
+            for _ in 0..12 {
+                v.push(crate::core::rng::splitmix64(&mut x) as u8);
+            }
+        }
+        v
+    })
+}
+fn pool_words() -> &'static [u64] {
+    static P: std::sync::OnceLock<Vec<u64>> = std::sync::OnceLock::new();
+    P.get_or_init(|| {
+        let mut v = Vec::with_capacity(POOL_KEYS / 2 * 4);
+        for j in 0..(POOL_KEYS / 2) as u64 {
+            v.push(j);
+            let mut x = j ^ 0x30AD5;
+            for _ in 0..3 {
+                v.push(crate::core::rng::splitmix64(&mut x));
+            }
+        }
+        v
+    })
+}
+pub fn bytes_key(i: u64) -> &'static [u8] {
+    let j = (i / 2) as usize % (POOL_KEYS / 2);
+    let base = 4 + j % 8;
+    let len = if i % 2 == 0 { base } else { base + 1 + j % 3 };
+    &pool_bytes()[j * 16..j * 16 + len]
+}
+pub fn words_key(i: u64) -> &'static [u64] {
+    let j = (i / 2) as usize % (POOL_KEYS / 2);
+    let base = 1 + j % 2;
+    let len = if i % 2 == 0 { base } else { base + 1 };
+    &pool_words()[j * 4..j * 4 + len]
+}
 
 fn odd_mult(seed: u64) -> u64 {
     let mut x = seed;
@@ -370,14 +458,8 @@ where
 }
 
 macro_rules! keys_of {
-    (usize, $case:expr, $order:expr) => {
-        Arc::new($order.iter().map(|&i| int_key($case, i) as usize).collect::<Vec<usize>>())
-    };
-    (u64, $case:expr, $order:expr) => {
-        Arc::new($order.iter().map(|&i| int_key($case, i)).collect::<Vec<u64>>())
-    };
-    (str, $case:expr, $order:expr) => {
-        Arc::new($order.iter().map(|&i| str_key($case, i)).collect::<Vec<String>>())
+    ($k:tt, $case:expr, $order:expr) => {
+        Arc::new($order.iter().map(|&i| key_at!($k, $case, i)).collect::<Vec<owned_ty!($k)>>())
     };
 }
 macro_rules! key_at {
@@ -390,11 +472,61 @@ macro_rules! key_at {
     (str, $case:expr, $i:expr) => {
         str_key($case, $i)
     };
+    (string, $case:expr, $i:expr) => {
+        str_key($case, $i)
+    };
+    (bytes, $case:expr, $i:expr) => {
+        bytes_key($i)
+    };
+    (words, $case:expr, $i:expr) => {
+        words_key($i)
+    };
+    (u8, $case:expr, $i:expr) => {
+        narrow_key($case, $i, 8) as u8
+    };
+    (i8, $case:expr, $i:expr) => {
+        narrow_key($case, $i, 8) as u8 as i8
+    };
+    (u16, $case:expr, $i:expr) => {
+        narrow_key($case, $i, 16) as u16
+    };
+    (i16, $case:expr, $i:expr) => {
+        narrow_key($case, $i, 16) as u16 as i16
+    };
+    (u32, $case:expr, $i:expr) => {
+        narrow_key($case, $i, 32) as u32
+    };
+    (i32, $case:expr, $i:expr) => {
+        narrow_key($case, $i, 32) as u32 as i32
+    };
+    (i64, $case:expr, $i:expr) => {
+        narrow_key($case, $i, 64) as u64 as i64
+    };
+    (isize, $case:expr, $i:expr) => {
+        narrow_key($case, $i, 64) as u64 as isize
+    };
+    (u128, $case:expr, $i:expr) => {
+        narrow_key($case, $i, 128)
+    };
+    (i128, $case:expr, $i:expr) => {
+        narrow_key($case, $i, 128) as i128
+    };
 }
+/// the type of the items the key source lends
 macro_rules! owned_ty {
-    (usize) => { usize };
-    (u64) => { u64 };
     (str) => { String };
+    (string) => { String };
+    (bytes) => { &'static [u8] };
+    (words) => { &'static [u64] };
+    ($t:tt) => { $t };
+}
+/// the key type parameter T of VFunc / VFilter
+macro_rules! key_ty {
+    (str) => { str };
+    (string) => { String };
+    (bytes) => { &'static [u8] };
+    (words) => { &'static [u64] };
+    ($t:tt) => { $t };
 }
 macro_rules! back_ty {
     (bfv, $w:ty) => { BitFieldVec<$w> };
@@ -416,7 +548,7 @@ macro_rules! func_combo {
             let order = delivery_order(case);
             let keys = keys_of!($k, case, order);
             let vals: Arc<Vec<$w>> = Arc::new(order.iter().map(|&i| value_of(case, i) as $w).collect());
-            let kl = FaultyLender::<owned_ty!($k), $k>::new(keys.clone(), "keys", &case.faults);
+            let kl = FaultyLender::<owned_ty!($k), key_ty!($k)>::new(keys.clone(), "keys", &case.faults);
             let vl = FaultyLender::<$w, $w>::new(vals.clone(), "values", &case.faults);
             let (ks, vs) = (kl.stats.clone(), vl.stats.clone());
             set_op("try_build_func");
@@ -487,7 +619,7 @@ macro_rules! filter_combo {
         fn $fname(case: &BuilderCase, obs: &mut BuildObs) {
             let order = delivery_order(case);
             let keys = keys_of!($k, case, order);
-            let kl = FaultyLender::<owned_ty!($k), $k>::new(keys.clone(), "keys", &case.faults);
+            let kl = FaultyLender::<owned_ty!($k), key_ty!($k)>::new(keys.clone(), "keys", &case.faults);
             let ks = kl.stats.clone();
             set_op("try_build_filter");
             let b = configure::<$w, back_ty!($back, $w), sig_ty!($s), $e>(case);
@@ -681,6 +813,20 @@ func_combo!(f8, usize, usize, bfv, s2, Mwhc3Shards);
 func_combo!(f9, u64, u64, boxed, s2, Mwhc3NoShards);
 func_combo!(f10, usize, u8, bfv, s2, FuseLge3Shards);
 func_combo!(f11, usize, u16, bfv, s1, FuseLge3NoShards);
+func_combo!(f12, u8, usize, bfv, s1, FuseLge3NoShards);
+func_combo!(f13, u16, u16, boxed, s2, FuseLge3Shards);
+func_combo!(f14, u32, u32, bfv, s1, FuseLge3NoShards);
+func_combo!(f15, u128, u64, boxed, s2, FuseLge3FullSigs);
+func_combo!(f16, i8, u8, bfv, s2, FuseLge3NoShards);
+func_combo!(f17, i16, usize, boxed, s1, FuseLge3NoShards);
+func_combo!(f18, i32, u16, bfv, s2, FuseLge3Shards);
+func_combo!(f19, i64, u32, boxed, s1, FuseLge3NoShards);
+func_combo!(f20, i128, usize, bfv, s1, FuseLge3NoShards);
+func_combo!(f21, isize, u64, bfv, s2, FuseLge3Shards);
+func_combo!(f22, string, usize, boxed, s1, FuseLge3NoShards);
+func_combo!(f23, bytes, u32, bfv, s2, FuseLge3NoShards);
+func_combo!(f24, words, usize, bfv, s1, FuseLge3NoShards);
+func_combo!(f25, bytes, u16, boxed, s1, FuseLge3NoShards);
 
 filter_combo!(g0, usize, u8, boxed, s2, FuseLge3Shards);
 filter_combo!(g1, usize, u16, boxed, s1, FuseLge3NoShards);
@@ -691,6 +837,10 @@ filter_combo!(g5, u64, u8, bfv, s1, FuseLge3NoShards);
 filter_combo!(g6, str, u32, bfv, s2, FuseLge3Shards);
 filter_combo!(g7, usize, u16, bfv, s2, Mwhc3Shards);
 filter_combo!(g8, usize, u64, bfv, s2, FuseLge3FullSigs);
+filter_combo!(g9, u32, u8, boxed, s1, FuseLge3NoShards);
+filter_combo!(g10, string, u16, bfv, s2, FuseLge3Shards);
+filter_combo!(g11, i64, u32, bfv, s1, FuseLge3NoShards);
+filter_combo!(g12, u128, u16, boxed, s2, FuseLge3NoShards);
 
 fn dispatch(case: &BuilderCase, obs: &mut BuildObs) {
     match case.combo.as_str() {
@@ -712,6 +862,20 @@ fn dispatch(case: &BuilderCase, obs: &mut BuildObs) {
         "f/u64/box-u64/s2/mwhc-noshards" => f9(case, obs),
         "f/usize/bfv-u8/s2/shards" => f10(case, obs),
         "f/usize/bfv-u16/s1/noshards" => f11(case, obs),
+        "f/u8/bfv-usize/s1/noshards" => f12(case, obs),
+        "f/u16/box-u16/s2/shards" => f13(case, obs),
+        "f/u32/bfv-u32/s1/noshards" => f14(case, obs),
+        "f/u128/box-u64/s2/fullsigs" => f15(case, obs),
+        "f/i8/bfv-u8/s2/noshards" => f16(case, obs),
+        "f/i16/box-usize/s1/noshards" => f17(case, obs),
+        "f/i32/bfv-u16/s2/shards" => f18(case, obs),
+        "f/i64/box-u32/s1/noshards" => f19(case, obs),
+        "f/i128/bfv-usize/s1/noshards" => f20(case, obs),
+        "f/isize/bfv-u64/s2/shards" => f21(case, obs),
+        "f/string/box-usize/s1/noshards" => f22(case, obs),
+        "f/bytes/bfv-u32/s2/noshards" => f23(case, obs),
+        "f/words/bfv-usize/s1/noshards" => f24(case, obs),
+        "f/bytes/box-u16/s1/noshards" => f25(case, obs),
         "F/usize/box-u8/s2/shards" => g0(case, obs),
         "F/usize/box-u16/s1/noshards" => g1(case, obs),
         "F/str/box-u32/s2/noshards" => g2(case, obs),
@@ -721,6 +885,10 @@ fn dispatch(case: &BuilderCase, obs: &mut BuildObs) {
         "F/str/bfv-u32/s2/shards" => g6(case, obs),
         "F/usize/bfv-u16/s2/mwhc-shards" => g7(case, obs),
         "F/usize/bfv-u64/s2/fullsigs" => g8(case, obs),
+        "F/u32/box-u8/s1/noshards" => g9(case, obs),
+        "F/string/bfv-u16/s2/shards" => g10(case, obs),
+        "F/i64/bfv-u32/s1/noshards" => g11(case, obs),
+        "F/u128/box-u16/s2/noshards" => g12(case, obs),
         other => panic!("unknown combo {other}"),
     }
 }
@@ -779,7 +947,8 @@ fn draw_sched(rng: &mut Rng, iters: usize) -> Sched {
 fn base_case(rng: &mut Rng, mode: &str, n: usize, iters: usize) -> BuilderCase {
     let combo = if mode == "func" { rng.pick(FUNC_COMBOS).to_string() } else { rng.pick(FILTER_COMBOS).to_string() };
     let wb = combo_word_bits(&combo);
-    let key_kind = if combo_key(&combo) == "str" { rng.pick(&["plain", "prefix"]).to_string() } else { rng.pick(&["range", "scatter"]).to_string() };
+    let n = n.min(combo_max_n(&combo));
+    let key_kind = if matches!(combo_key(&combo), "str" | "string") { rng.pick(&["plain", "prefix"]).to_string() } else { rng.pick(&["range", "scatter"]).to_string() };
     let val_kind = rng.pick(&["identity", "identity", "random", "random", "zero", "allones"]).to_string();
     let (hint, hint_kind) = draw_hint(rng, n, true);
     BuilderCase {
